@@ -238,3 +238,262 @@ def c07(res, rng, tier):
         "lattice_values": nvals, "black_box_lookups": len(llines), "cpython_eq_evaluated": sum(1 for x in cpy if x is not None)})
     res.samples = [{"a": pairs[i][0], "b": pairs[i][1], "impl": impl[i], "model": model[i], "cpython_eq": cpy[i]}
                    for i in range(0, len(pairs), max(1, len(pairs) // 6))]
+
+# =============================================================================================
+# C08 — Dict is a correct map under every history
+# =============================================================================================
+ALPHA10 = ["i:1", "f:3ff0000000000000", "T", "L:1", "s:61", "b:61", "z:61",
+           "t( i:1 s:61 )", "t( f:3ff0000000000000 z:61 )", "t( L:1 b:61 )"]
+
+def histories_exhaustive(maxlen):
+    ops = [(o, k) for o in "SDG" for k in ALPHA10]
+    out = []
+    def rec(prefix, n):
+        if prefix:
+            out.append(list(prefix))
+        if n == 0:
+            return
+        for op in ops:
+            prefix.append(op)
+            rec(prefix, n - 1)
+            prefix.pop()
+    rec([], maxlen)
+    return out
+
+def render_history(h, every_len=False):
+    toks = []
+    for i, (o, k) in enumerate(h):
+        if o == "S":
+            toks += ["S", k, "i:%d" % i]
+        else:
+            toks += [o, k]
+        if every_len:
+            toks.append("L")
+    toks += ["L", "I"]
+    return "dict " + " ".join(toks)
+
+def random_history(rng, keys, n):
+    h = []
+    live = []
+    phase_grow = True
+    for i in range(n):
+        if i % 200 == 0:
+            phase_grow = rng.below(3) != 0
+        r = rng.below(10)
+        if phase_grow: op = "S" if r < 6 else ("G" if r < 8 else "D")
+        else: op = "D" if r < 6 else ("G" if r < 8 else "S")
+        if op != "S" and live and rng.below(3):
+            k = rng.choice(live)
+        else:
+            k = rng.choice(keys)
+        if op == "S": live.append(k)
+        h.append((op, k))
+    return h
+
+def split3(obs):
+    a = obs.split(" ## ")
+    return a if len(a) == 3 else [obs, "", "multi="]
+
+def iter_keys_distinct(itertxt):
+    """keys of an iter(..)={ k v ; k v } dump must be pairwise unequal under CPython =="""
+    m = re.match(r"iter\((\d+)\)=\{ (.*) \}$", itertxt)
+    if not m or not m.group(2).strip():
+        return True, 0
+    ks = []
+    for item in m.group(2).split(" ; "):
+        try:
+            k, v = PV.parse_two(item)
+        except Exception:
+            return True, 0
+        ks.append(k)
+    for i in range(len(ks)):
+        for j in range(i + 1, len(ks)):
+            if PV.py_eq(ks[i], ks[j]):
+                return False, len(ks)
+    return True, len(ks)
+
+KNOWN_C08 = "nontransitive_multi_match"
+
+@check("C08")
+def c08(res, rng, tier):
+    q = tier == "quick"
+    hs = histories_exhaustive(3 if q else 4)
+    lines = [render_history(h) for h in hs]
+    # long random histories over the C07 lattice (floats included), Len after every op
+    groups = numeric_lattice(rng.fork("lat"))
+    keys = [t for k in sorted(groups) for t in groups[k]][:4000] + STRINGISH + OTHERS + SPECIAL_FLOATS[3:7]
+    keys += tuples_of(rng.fork("tup"), ALPHA10[:7] + ["N"], 200)
+    r = rng.fork("hist")
+    nlong = 24 if q else 300
+    for i in range(nlong):
+        pool = [r.choice(keys) for _ in range(r.choice([12, 40, 300, 2000]))] + ALPHA10
+        lines.append(render_history(random_history(r, pool, r.choice([200, 600]) if q else r.choice([1500, 4000])), every_len=True))
+    known = [k for k in C.load_known_findings() if k.get("property") == "C08" and k.get("class") == KNOWN_C08]
+    if known:
+        lines.append("dict S s:61 i:1 S b:61 i:2 G z:61")       # the listed witness
+    impl = C.implrun(lines)
+    model = C.modelrun(lines)
+    nontriv = 0
+    multi_seen = 0
+    mism = 0
+    for i, (io, mo) in enumerate(zip(impl, model)):
+        if io.startswith(("PANIC", "CRASHED", "TIMEOUT")) or "PANIC(" in io:
+            res.violation("Dict operation panicked / hung: %s" % io[:200],
+                          {"kind": "impl", "history": lines[i][:4000], "impl": io[:500]})
+            continue
+        md, mr, mm = split3(mo)
+        multi = set(int(x) for x in mm[len("multi="):].split(",") if x)
+        iparts, dparts, rparts = io.split(" | "), md.split(" | "), mr.split(" | ")
+        if len(iparts) != len(rparts):
+            res.violation("harness: observation length mismatch", {"kind": "correspondence", "history": lines[i][:2000],
+                          "impl": io[:500], "model": mo[:500]}, found_input=False)
+            continue
+        multi_out = multi      # the model numbers every operation, L and I included = output index
+        bad = None
+        for p in range(len(iparts)):
+            if iparts[p] != rparts[p]:
+                if p in multi_out and iparts[p].startswith("G:") and iparts[p] != "G:none":
+                    multi_seen += 1       # known finding: some equal entry, not the most recent
+                    continue
+                bad = p
+                break
+        if bad is not None:
+            res.violation("Dict disagrees with the reference dictionary at output %d: Dict %s, reference %s"
+                          % (bad, iparts[bad][:120], rparts[bad][:120]),
+                          {"kind": "impl", "history": lines[i][:6000], "output_index": bad,
+                           "impl": iparts[bad][:300], "reference": rparts[bad][:300],
+                           "cmd": "echo '<history>' | harness/go/implrun"})
+            continue
+        if iparts != dparts:
+            diffp = [p for p in range(min(len(iparts), len(dparts))) if iparts[p] != dparts[p]]
+            if not all(p in multi_out for p in diffp):
+                mism += 1
+                if mism <= 3:
+                    res.violation("correspondence: Dict model and implementation differ on a history",
+                                  {"kind": "correspondence", "history": lines[i][:4000], "impl": io[:500], "model": md[:500]},
+                                  found_input=False)
+        # Len == number of entries Iter yields, keys pairwise unequal (CPython ==)
+        lens = [x for x in iparts if x.startswith("L:")]
+        its = [x for x in iparts if x.startswith("iter(")]
+        if lens and its:
+            n_it = int(re.match(r"iter\((\d+)\)", its[-1]).group(1))
+            if int(lens[-1][2:]) != n_it:
+                res.violation("Len %s != entries yielded by Iter %d" % (lens[-1], n_it),
+                              {"kind": "impl", "history": lines[i][:6000], "impl": io[-400:]})
+            okd, nk = iter_keys_distinct(its[-1])
+            if not okd:
+                res.violation("two stored keys are equal to each other", {"kind": "impl", "history": lines[i][:6000], "iter": its[-1][:1000]})
+        nontriv += 1
+    if known:
+        if multi_seen:
+            res.known.append("%s: Get with a ByteString key equal to two mutually unequal stored keys (str and bytes) returns the entry in the earlier slot, not the most recently set one; witness Set('a',1);Set(b'a',2);Get(py2 'a') -> %s (%d occurrences in this run)"
+                             % (KNOWN_C08, impl[-1].split(" | ")[-1], multi_seen))
+    elif multi_seen:
+        res.violation("Get returns an entry that is not the most recently set equal one (multi-match)",
+                      {"kind": "impl", "history": "dict S s:61 i:1 S b:61 i:2 G z:61", "occurrences": multi_seen})
+    res.coverage.update({
+        "evaluations": len(lines), "distinct_nontrivial": nontriv, "exhaustive": True,
+        "rule": "all op sequences of length <= %d over {Set,Del,Get} x the 10-key colliding alphabet (exhaustive), plus %d random histories of 300-6000 ops over the C07 lattice with Len after every op; every output compared with the extracted RefDict and the Dict model; non-trivial = history executed and compared" % (3 if q else 4, nlong),
+        "programs": len(lines), "disagreements_checked": len(lines), "multi_match_gets": multi_seen,
+        "exhaustive_length": 3 if q else 4})
+    res.samples = [{"history": lines[i][:200], "impl": impl[i][:200]} for i in (0, 31, 1000, len(lines) - 2)]
+
+# =============================================================================================
+# C17 — unhashable dict keys: error from Decode, panic 'unhashable type:' from the Dict API
+# =============================================================================================
+import struct as _st
+
+def unhashable_key_programs():
+    """(description, program bytes that push ONE key containing an unhashable object)"""
+    base = [("list", b"]"), ("list1", b"]K\x01a"), ("dict", b"}"), ("dict1", b"}K\x01K\x02s"),
+            ("bytearray", b"\x96" + _st.pack("<Q", 2) + b"ab")]
+    out = []
+    for name, prog in base:
+        out.append((name + "@0", prog))
+        out.append((name + "@1 tuple", prog + b"\x85"))
+        out.append((name + "@2 tuple", b"K\x01" + prog + b"\x85\x86"))
+        out.append((name + "@3 tuple", b"(K\x01(K\x02" + prog + b"\x85tt"))
+        out.append((name + "@1 call", b"cm\nC\n" + prog + b"\x85R"))
+        out.append((name + "@2 call", b"cm\nC\nK\x01" + prog + b"\x85\x86R"))
+        out.append((name + "@1 ref", prog + b"Q"))
+        out.append((name + "@2 ref", prog + b"\x85Q"))
+        out.append((name + "@3 ref-call", b"cm\nC\n" + prog + b"\x85Q\x85R"))
+    return out
+
+@check("C17")
+def c17(res, rng, tier):
+    # ---- Decode: every opcode that inserts keys
+    progs = []
+    for name, key in unhashable_key_programs():
+        progs.append((name + " DICT", b"(" + key + b"Nd."))
+        progs.append((name + " DICT 2nd", b"(K\x05N" + key + b"Nd."))
+        progs.append((name + " SETITEM", b"}" + key + b"Ns."))
+        progs.append((name + " SETITEMS", b"}(" + key + b"Nu."))
+        progs.append((name + " SETITEMS 2nd", b"}(K\x05N" + key + b"Nu."))
+        progs.append((name + " nested SETITEM", b"]}" + key + b"Nsa."))
+    # default map mode only: tuples (hashable in Python) cannot be Go map keys
+    tuple_keys = [b")", b"K\x01\x85", b"K\x01K\x02\x86", b"(K\x01S'a'\nt", b"cm\nC\n)R", b"K\x01\x85Q"]
+    tprogs = []
+    for key in tuple_keys:
+        tprogs += [b"(" + key + b"Nd.", b"}" + key + b"Ns.", b"}(" + key + b"Nu."]
+    lines, meta = [], []
+    for name, p in progs:
+        for pd, su in (("0", "0"), ("1", "0"), ("1", "1"), ("0", "1")):
+            lines.append("dec %s %s 0 %s" % (pd, su, p.hex())); meta.append((name, p, pd, "any"))
+    for p in tprogs:
+        lines.append("dec 0 0 0 %s" % p.hex()); meta.append(("tuple-key", p, "0", "maponly"))
+        lines.append("dec 1 0 0 %s" % p.hex()); meta.append(("tuple-key", p, "1", "dictok"))
+    impl = C.implrun(lines)
+    model = C.modelrun(lines)
+    from props import parts, classes
+    for i, (io, mo) in enumerate(zip(impl, model)):
+        name, p, pd, kind = meta[i]
+        first = parts(io)[0]
+        if kind in ("any", "maponly"):
+            if first != "err other":
+                res.violation("unhashable dict key (%s, PyDict=%s) gives %r instead of an error" % (name, pd, first[:100]),
+                              {"kind": "impl", "input_hex": p.hex(), "pydict": pd, "observed": io[:300],
+                               "cmd": "echo 'dec %s 0 0 %s' | harness/go/implrun" % (pd, p.hex())})
+                continue
+        else:
+            if not first.startswith("ok "):
+                res.violation("hashable tuple-like key rejected in PyDict mode: %r" % first[:100],
+                              {"kind": "impl", "input_hex": p.hex(), "pydict": pd, "observed": io[:300]})
+        if classes(io) != classes(mo):
+            res.violation("correspondence: model %s vs implementation %s" % (classes(mo)[:3], classes(io)[:3]),
+                          {"kind": "correspondence", "input_hex": p.hex(), "pydict": pd, "model": mo[:300], "impl": io[:300]},
+                          found_input=False)
+    # ---- direct API: Get / Set / Del with an unhashable key on Dicts of several sizes
+    alines, ameta = [], []
+    for size in (0, 1, 7, 8, 9, 100):
+        fill = " ".join("S i:%d i:%d" % (j, j * j) for j in range(size))
+        for u in UNHASHABLE:
+            for op in ("G %s" % u, "S %s i:0" % u, "D %s" % u):
+                alines.append(("dict %s L I %s L I" % (fill, op)).replace("  ", " "))
+                ameta.append((size, u, op[0]))
+    aimpl = C.implrun(alines)
+    amodel = C.modelrun(alines)
+    for i, (io, mo) in enumerate(zip(aimpl, amodel)):
+        size, u, op = ameta[i]
+        ip = io.split(" | ")
+        # ... L I <op> L I
+        opres, after, before = ip[-3], ip[-2:], ip[-5:-3]
+        if opres != op + ":unhashable":
+            res.violation("Dict.%s with unhashable key %s on a Dict of %d entries: %s (expected panic 'unhashable type:')"
+                          % ({"G": "Get", "S": "Set", "D": "Del"}[op], u, size, opres[:120]),
+                          {"kind": "impl", "history": alines[i][:3000], "observed": opres[:300],
+                           "cmd": "echo '%s' | harness/go/implrun" % alines[i][:300]})
+            continue
+        elif after != before:
+            res.violation("Dict contents changed by a call that panicked with an unhashable key",
+                          {"kind": "impl", "history": alines[i][:3000], "before": before, "after": after})
+        md = split3(mo)[0]
+        if md != io:
+            res.violation("correspondence: Dict model %s vs implementation %s" % (md.split(" | ")[-3:], ip[-3:]),
+                          {"kind": "correspondence", "history": alines[i][:2000], "model": md[-300:], "impl": io[-300:]}, found_input=False)
+    res.coverage.update({
+        "evaluations": len(lines) + len(alines), "distinct_nontrivial": len(progs) + len(tprogs) + len(alines),
+        "rule": "dict-building programs with an unhashable object (list, dict, bytearray) at depth 0..3 inside Tuple / Call args / Ref id x {DICT, SETITEM, SETITEMS, second pair, nested} x 4 configs; tuple keys in map mode; direct Get/Set/Del with 16 unhashable keys on Dicts of 0,1,7,8,9,100 entries with contents compared before/after",
+        "programs": len(lines) + len(alines), "disagreements_checked": len(lines) + len(alines)})
+    res.samples = [{"program_hex": meta[i][1].hex(), "impl": impl[i][:100]} for i in (0, 5, 40)] + \
+                  [{"history": alines[i][-80:], "impl": aimpl[i][-120:]} for i in (0, 50)]
